@@ -352,7 +352,9 @@ func C18(r *core.Run) {
 		tot.Rejected += o.Rejected
 		tot.Bad = append(tot.Bad, o.Bad...)
 	}
-	sort.Slice(tot.Bad, func(i, j int) bool { return fmt.Sprint(tot.Bad[i].Cmd, tot.Bad[i].Arg) < fmt.Sprint(tot.Bad[j].Cmd, tot.Bad[j].Arg) })
+	sort.Slice(tot.Bad, func(i, j int) bool {
+		return fmt.Sprint(tot.Bad[i].Cmd, tot.Bad[i].Arg) < fmt.Sprint(tot.Bad[j].Cmd, tot.Bad[j].Arg)
+	})
 	for _, b := range tot.Bad {
 		key := fmt.Sprintf("%s %q %s", b.Cmd, b.Arg, b.Start)
 		r.Report(core.Violation{Clause: b.Clause, Key: key,
